@@ -96,6 +96,37 @@ theorem value_only_if (cfg : Cfg α) (key b : Bytes) (v : Val α)
     simp [hp] at h
     exact ⟨p, rfl, h⟩
 
+/-- **Every blob whose digest label is intact falls under the theorems above.**  Whatever follows
+`label:` — any alteration, truncation, extension, insertion of `_` or `:` anywhere — the check either
+finds no `_` at all (the caller's default), or splits at the first `_` into a signature candidate
+`sig` and a payload `rest` and accepts exactly when `sig` is the MAC of `key ‖ rest`. -/
+theorem label_intact_verdict (cfg : Cfg α) (s : Signer) (d : Digest) (key tail : Bytes) :
+    (us ∉ tail ∧ checkHash cfg s key (d.label ++ colon :: tail) = .missing) ∨
+    (∃ sig rest, tail = sig ++ us :: rest ∧ us ∉ sig ∧
+      checkHash cfg s key (d.label ++ colon :: tail)
+        = if cfg.mac d s.secret (key ++ rest) = sig then .ok rest else .unsecure) := by
+  cases hs : splitFirst us tail with
+  | none =>
+    left
+    have hno := splitFirst_none.mp hs
+    refine ⟨hno, ?_⟩
+    have : splitFirst us (d.label ++ colon :: tail) = none := by
+      apply splitFirst_none.mpr
+      intro m
+      rcases List.mem_append.mp m with m | m
+      · exact label_no_us _ m
+      · rcases List.mem_cons.mp m with e | m
+        · revert e; decide
+        · exact hno m
+    simp [checkHash, this]
+  | some p =>
+    obtain ⟨sig, rest⟩ := p
+    right
+    have h := splitFirst_some hs
+    refine ⟨sig, rest, h.1, h.2, ?_⟩
+    rw [h.1]
+    exact checkHash_tagged d sig rest h.2
+
 /-- **Tampered or foreign data is accepted only in the residual case, stated exactly.**
 Let the blob found under `key` carry an intact digest label `d` and a signature that was issued —
 under some secret `secret0` — for key `key0` and payload `p0` (signatures can be copied, not
